@@ -2,7 +2,7 @@
 """Record the verdicts of the round-4 mutation runs (/tmp/mut/verdict-<sid>.txt, written by tools/confirm_r4.sh
 through tools/mutate.sh) in seeded/<sid>/meta.json['detection'] — same fields as tools/run_all_seeds.py."""
 import glob, json, os, re, sys
-for f in sorted(glob.glob('/tmp/mut/verdict-*-r4m*.txt')):
+for f in sorted(glob.glob('/tmp/mut/verdict-*-r[45]m*.txt')):
     sid = os.path.basename(f)[len('verdict-'):-4]
     d = '/verif/seeded/' + sid
     if not os.path.exists(d + '/meta.json'):
